@@ -38,8 +38,19 @@ func scoreAlphabet() []eval.Score {
 	for _, f := range []float32{1, -1, 103, -103, 0.001, 3, -3, 1e10} {
 		fs = append(fs, math.Nextafter32(f, float32(math.Inf(1))), math.Nextafter32(f, float32(math.Inf(-1))))
 	}
+	// magnitudes at which an implementation might be tempted to put the mates on the same number line
+	// as the heuristic values (round numbers and integer widths), and the mate distances around them
+	for _, k := range []float32{127, 128, 255, 256, 1000, 9999, 10000, 20000, 30000, 32000, 32767, 32768, 65535, 65536, 100000, 1e6} {
+		for _, d := range []float32{0, 1, 100, 127} {
+			fs = append(fs, k-d, -(k - d), k+d, -(k + d))
+		}
+	}
+	seen := map[uint32]bool{}
 	for _, f := range fs {
-		out = append(out, eval.HeuristicScore(eval.Pawns(f)))
+		if bits := math.Float32bits(f); !seen[bits] {
+			seen[bits] = true
+			out = append(out, eval.HeuristicScore(eval.Pawns(f)))
+		}
 	}
 	return out
 }
@@ -171,7 +182,7 @@ func checkC09(c *harness.Check) {
 	al := scoreClosure(base)
 	c.SetExtra("constructor_alphabet", len(base))
 	c.SetExtra("closure_under_negate_inc_dec", len(al))
-	c.Rule = fmt.Sprintf("alphabet of %d scores: won, lost, mate k for every k in [-128,127]\\{0}, %d float32 heuristics incl. +-0, denormals, 1-ulp neighbours, +-max, +-Inf, CLOSED (breadth-first, values kept apart structurally) under the score-producing operations Negate / IncrementMateDistance / DecrementMateDistance, so that representations the constructors never build are members too; ALL pairs: Less vs rank tuple, trichotomy with ==, negation involutive and order-reversing, one more ply order-preserving and equal to the model's, Max/Min; ALL triples: transitivity; thorough: unary/neighbour laws over all 2^32 float32 payloads. distinct_nontrivial = pairs of distinct scores", len(base), len(base)-257)
+	c.Rule = fmt.Sprintf("alphabet of %d scores: won, lost, mate k for every k in [-128,127]\\{0}, %d float32 heuristics incl. +-0, denormals, 1-ulp neighbours, +-max, +-Inf, round numbers and integer widths (127 .. 10^6) with mate distances added and subtracted, CLOSED (breadth-first, values kept apart structurally) under the score-producing operations Negate / IncrementMateDistance / DecrementMateDistance, so that representations the constructors never build are members too; ALL pairs: Less vs rank tuple, trichotomy with ==, negation involutive and order-reversing, one more ply order-preserving and equal to the model's, Max/Min; ALL triples: transitivity; thorough: unary/neighbour laws over all 2^32 float32 payloads. distinct_nontrivial = pairs of distinct scores", len(base), len(base)-257)
 	c.States.Store(int64(len(al)))
 	harness.Parallel(len(al), func(i int) {
 		a := al[i]
